@@ -4,6 +4,7 @@ import config_corr
 
 def explore(run, lean):
     config_corr.explore(run, 40 if run.tier == "quick" else 800)
+    config_corr.explore_chatty_start(run)
     config_corr.detection_probe(run)
     run.extra["rule"] = ("random charts (<=9 states) and scripts of 1-6 events run on every combination of host (plain, instrumented, "
                          "queued, active object under the deterministic scheduler) x decorator (spied / un-spied) x live spy / live "
